@@ -135,8 +135,8 @@ PROPS["C20"] = dict(
     functions=["debug::command::{parse_address,parse_command,normalize_command}", "debug::disassembly::disassemble", "decoder::{decode,decode_cb}"],
     bounds={"quick": "parse_address: all 65536 values in lower/upper-case, padded/unpadded 0x-hex and in decimal; 0x10000..0xFFFFF and 65536..999999 rejected; "
                      "'0x' + up to 4 arbitrary printable ASCII bytes accepted iff hex digits; arbitrary ASCII tokens <= 5 bytes total. disassemble: every first byte "
-                     "(256) and every CB second byte (256) with symbolic operand bytes, placed first and last in a two-instruction slice at any base address (incl. wrap)",
-            "thorough": "plus parse_command: command words with symbolic letter case and whitespace layouts, address arguments for all 65536 values, arbitrary ASCII lines <= 3 bytes "
+                     "(256) and every CB second byte (256) with symbolic operand bytes, placed last in a two-instruction slice (after a NOP, ending exactly on the slice end) at any base address (incl. wrap)",
+            "thorough": "plus every opcode placed first (followed by a NOP); plus parse_command: command words with symbolic letter case and whitespace layouts, address arguments for all 65536 values, arbitrary ASCII lines <= 3 bytes "
                         "(String::to_lowercase / split_whitespace over symbolic bytes: each query may exceed its 60 min budget and is then reported inconclusive)"},
     outside=["parse_command in the quick tier (see thorough)", "sign-prefixed numbers (+12, 0x+1f): not settled by the statement", "arbitrary Unicode lines longer than the stated bounds", "rendered disassembly text (Op's Display is cut)",
              "'info registers' two-word command"],
